@@ -134,6 +134,8 @@ def run(ctx):
                         "(1..3 rows of 2..6 legal row-high cells, per cell nL nets to the left pad and nR to the right pad with (nL - nR) / width strictly "
                         "decreasing along the row, so that the legalized order is the unique optimum of every window), and their op list starts with 1..3 "
                         "reordering passes (nbRows 1..2, maxNbCells 2..4) and a runReorderingOnCells on 2..4 consecutive cells (counts in direct_drive); DP: Circuit::placeDetailed with callback, random accepted parameters. "
+                        "NET WEIGHTS: 2 circuits in 3 of both streams carry nets of weight 0 (25 % of their nets) and of tiny weight 2^-1..2^-60 / 2^-120..2^-140 "
+                        "(10 %) among the weights 0.5..2 (all accepted by addNet); Circuit::hpwl and the from-scratch wirelength count every net (counts: net_weights). "
                         "non-trivial = some op changed the placement (DO) / the run improved the wirelength (DP); distinct = distinct case lines",
                 "direct_drive": do.summary(dres), "placeDetailed_runs": dc.summary(cres),
                 "known_F8_matches": known,
